@@ -248,12 +248,12 @@ Qed.
 
 Definition me_of (c : cdef) (lex : path) (parent : scope) : scope :=
   mkFrame (Some (c_name c)) true
-          (od_update e_key Pos.eqb [] (entries_of (lex ++ [c_name c]) (c_classes c))) :: parent.
+          (od_update e_key Pos.eqb [] (entries_of (lex ++ [c_name c]) (c_classes c))) None :: parent.
 
 Lemma build_plain root f c lex parent :
   plain c ->
-  build root (S (S f)) c lex parent [] [] =
-  (r <- build_syms (build root (S f)) (extends_builtin root (S f)) (me_of c lex parent)
+  build root false (S (S f)) c lex parent [] [] =
+  (r <- build_syms root false (build root false (S f)) (extends_builtin root (S f)) (me_of c lex parent)
                    (scope_ref (me_of c lex parent)) (c_syms c) [] [] [] ;;
    Ok (Inst (scope_ref (me_of c lex parent)) (c_kind c) (fst r) (c_eqs c) (snd r))).
 Proof.
@@ -268,7 +268,7 @@ Proof.
 Qed.
 
 Lemma build_kind root n c lex parent i :
-  plain c -> build root n c lex parent [] [] = Ok i ->
+  plain c -> build root false n c lex parent [] [] = Ok i ->
   exists a b d e, i = Inst a (c_kind c) b d e.
 Proof.
   intros H B. destruct n as [|[|f]]; try (simpl in B; discriminate B).
@@ -286,7 +286,7 @@ Proof.
 Qed.
 
 Lemma build_alias root f c lex parent i :
-  alias c -> build root f c lex parent [] [] = Ok i ->
+  alias c -> build root false f c lex parent [] [] = Ok i ->
   exists r m t, i = Inst r kBuiltin [ISym iValueSym [] [] (TyElem [t]) []] [] m /\
                 c = CDef (c_name c) kType [] [([t], [])] [] [] /\ mem_id t BUILTIN = true /\ f <> 0.
 Proof.
@@ -318,15 +318,15 @@ Inductive built (root : list cdef) (f : nat) (me : scope) : sym -> isym -> Prop 
     mem_id (head_id (s_type s)) BUILTIN = false ->
     lookup me (s_type s) = Some (tc, tlex, tparent, b) ->
     pclass tc -> Forall fplain tparent ->
-    build root f tc tlex tparent [] [] = Ok i ->
+    build root false f tc tlex tparent [] [] = Ok i ->
     built root f me s (ISym (s_name s) (s_prefixes s) (s_dims s) (TyInst i) []).
 
 Lemma build_syms_plain root f me myref : Forall fplain me -> forall ss acc l rest,
   Forall plain_sym ss ->
-  build_syms (build root f) (extends_builtin root f) me myref ss [] [] acc = Ok (l, rest) ->
+  build_syms root false (build root false f) (extends_builtin root f) me myref ss [] [] acc = Ok (l, rest) ->
   exists l', l = rev acc ++ l' /\ Forall2 (built root f me) ss l'.
 Proof.
-  intros Hme. induction ss as [|s ss IH]; intros acc l rest Hp H; cbn [build_syms] in H.
+  intros Hme. induction ss as [|s ss IH]; intros acc l rest Hp H; cbn [build_syms mlookup] in H.
   - inversion H; subst. exists []. rewrite app_nil_r. split; [reflexivity | constructor].
   - inversion Hp as [|? ? [Hm Hnd] Hp']; subst.
     destruct (mem_id (head_id (s_type s)) BUILTIN) eqn:E.
@@ -339,12 +339,12 @@ Proof.
       destruct (if b then Ok false else extends_builtin root f tc tlex) as [ib|err] eqn:Eib;
         cbn [bind] in H; [|discriminate H].
       rewrite Hm in H.
-      assert (build root f tc tlex tparent [] [] = Ok (match build root f tc tlex tparent [] [] with Ok i => i | Err _ => Inst [] xH [] [] [] end)
-              /\ build_syms (build root f) (extends_builtin root f) me myref ss [] []
+      assert (build root false f tc tlex tparent [] [] = Ok (match build root false f tc tlex tparent [] [] with Ok i => i | Err _ => Inst [] xH [] [] [] end)
+              /\ build_syms root false (build root false f) (extends_builtin root f) me myref ss [] []
                    (ISym (s_name s) (s_prefixes s) (s_dims s)
-                      (TyInst (match build root f tc tlex tparent [] [] with Ok i => i | Err _ => Inst [] xH [] [] [] end)) [] :: acc) = Ok (l, rest)) as [B H'].
+                      (TyInst (match build root false f tc tlex tparent [] [] with Ok i => i | Err _ => Inst [] xH [] [] [] end)) [] :: acc) = Ok (l, rest)) as [B H'].
       { destruct ib; cbn [flat_map shift_args bind app map] in H; destruct b; cbn [app map] in H;
-          destruct (build root f tc tlex tparent [] []) as [i|err]; cbn [bind] in H;
+          destruct (build root false f tc tlex tparent [] []) as [i|err]; cbn [bind] in H;
           try discriminate H; split; (reflexivity || exact H). }
       apply IH in H'; [|assumption]. destruct H' as [l' [-> F]].
       eexists (_ :: l'). split; [cbn [rev]; rewrite <- app_assoc; reflexivity|].
@@ -372,7 +372,7 @@ Proof. inversion 1; simpl; auto. Qed.
 Definition IHyp (root : list cdef) (f : nat) : Prop :=
   forall c lex parent Sp prefix i r,
     plain c -> Forall fplain parent -> sim parent Sp ->
-    build root f c lex parent [] [] = Ok i ->
+    build root false f c lex parent [] [] = Ok i ->
     flatten_symbols i prefix = Ok r ->
     inst_go f true c lex Sp prefix [] = Some (map var_of (fst r), snd r, []) /\ Forall clean (fst r).
 
@@ -459,7 +459,7 @@ Proof.
   - simpl in B. discriminate B.
   - destruct n as [|f]; [simpl in B; discriminate B|].
     rewrite (build_plain root f c lex parent Hc) in B.
-    destruct (build_syms (build root (S f)) (extends_builtin root (S f)) (me_of c lex parent)
+    destruct (build_syms root false (build root false (S f)) (extends_builtin root (S f)) (me_of c lex parent)
                 (scope_ref (me_of c lex parent)) (c_syms c) [] [] []) as [[l rest]|err] eqn:BS;
       cbn [bind] in B; [|discriminate B].
     inversion B; subst i; clear B. cbn [fst snd] in Fs.
@@ -514,7 +514,7 @@ Definition plain_lib (root : list cdef) : Prop := Forall pclass root.
 
 Theorem refines_flat root top r :
   plain_lib root -> ~ (exists c lex Sp b, lookup (lex_scope root []) top = Some (c, lex, Sp, b) /\ alias c) ->
-  flatten root top = Ok r ->
+  flatten root false top = Ok r ->
   Forall clean (fst r) /\ PV.Lib.Inst.inst root top = Some (map var_of (fst r), snd r).
 Proof.
   intros Hroot Htop H. unfold flatten in H. unfold PV.Lib.Inst.inst.
@@ -523,7 +523,7 @@ Proof.
   { unfold lex_scope. cbn [lex_frames_from]. constructor; [|constructor].
     unfold fplain. cbn [f_entries]. apply entries_plain. exact Hroot. }
   destruct (lookup_plain _ _ _ _ _ _ Hsc L) as [[Hc|Hal] Hpar]; [|exfalso; apply Htop; eexists _, _, _, _; split; [reflexivity | exact Hal]].
-  destruct (build root FUEL c lex parent [] []) as [i|err] eqn:B; cbn [bind] in H; [|discriminate H].
+  destruct (build root false FUEL c lex parent [] []) as [i|err] eqn:B; cbn [bind] in H; [|discriminate H].
   destruct (flatten_symbols i []) as [[flat eqs]|err] eqn:Fs; cbn [bind] in H; [|discriminate H].
   inversion H; subst r; clear H.
   destruct (instance_refines root FUEL c lex parent parent [] i (flat, eqs) Hc Hpar (sim_refl parent) B Fs)
